@@ -90,7 +90,7 @@ fn receiving(o: &Obs) -> bool {
 pub fn deliver(w: &mut World, m: &RefMsg, rep: &mut Report) -> Vec<(&'static str, String)> {
     let n = w.pop.addrs.len();
     let before: Vec<Obs> = (0..n).map(|i| vsx::observe(w.bus.sign(i))).collect();
-    let lib = refs::from_ref(m);
+    let lib = refs::from_ref_either(m);
     let bus = &mut w.bus;
     let r = catch(|| bus.process_message(lib).map(|r| r.map(|x| refs::to_ref(&x))).map_err(|e| e.to_string()));
     let mut bad: Vec<(&'static str, String)> = vec![];
@@ -250,7 +250,8 @@ fn report(pop: &Pop, history: &[RefMsg], bad: &[(&'static str, String)], rep: &m
 
 fn random_pop(rng: &mut Rng) -> Pop {
     let n = 1 + rng.usize(4);
-    let pool = [0u16, 1, 3, 0x7F, 0x80, 0xFFFF, rng.u16(), rng.u16()];
+    // (0x10 and 0x20 are also chunk offsets, 1..3 also plausible chunk counts, 0x0103 shares its low byte with 3)
+    let pool = [0u16, 1, 2, 3, 0x10, 0x20, 0x7F, 0x80, 0xFF, 0x0103, 0xFFFF, rng.u16(), rng.u16()];
     let mut addrs: Vec<u16> = vec![];
     while addrs.len() < n {
         let a = *rng.pick(&pool);
@@ -263,10 +264,16 @@ fn random_pop(rng: &mut Rng) -> Pop {
 
 fn absent_addr(rng: &mut Rng, pop: &Pop) -> u16 {
     loop {
-        let a = match rng.below(4) {
+        let a = match rng.below(8) {
             0 => rng.u16(),
             1 => pop.addrs[0] ^ 1,
             2 => pop.addrs[0] ^ 0x8000,
+            3 => pop.addrs[0] ^ 0x0100, // same low byte
+            // addresses somebody might give a special meaning to
+            4 => *rng.pick(&[0x0000u16, 0x00FF, 0xFFFF, 0x007F, 0x0080, 0x00FE, 0x0100, 0x0010]),
+            // an address equal to a chunk offset or a small chunk count
+            5 => 16 * (rng.below(8) as u16),
+            6 => rng.below(8) as u16,
             _ => 2,
         };
         if !pop.addrs.contains(&a) {
@@ -441,6 +448,24 @@ pub fn run(ctx: &Ctx) -> Outcome {
             if shard - nb == 3 {
                 neighbour_traffic(rep);
             }
+            if shard - nb == 4 {
+                // the documentation's own example: a bus with a sign at every address 2..=126 (and a few beyond)
+                let pop = Pop { addrs: (2..=140u16).collect(), autos: (2..=140u16).map(|a| a % 3 == 0).collect() };
+                let mut w = World::new(&pop);
+                let mut history = vec![];
+                for step in 0..600usize {
+                    let k = if step % 3 == 0 { step % pop.addrs.len() } else { rng.usize(pop.addrs.len()) };
+                    let foreign = if rng.bool() { pop.addrs[(k + 1 + rng.usize(pop.addrs.len() - 1)) % pop.addrs.len()] } else { absent_addr(&mut rng, &pop) };
+                    let m = vsx::next_msg(&mut rng, &w.guides[k], foreign);
+                    let bad = deliver(&mut w, &m, rep);
+                    history.push(m);
+                    if !bad.is_empty() {
+                        report(&pop, &history, &bad, rep);
+                        break;
+                    }
+                }
+                rep.count("big_bus_histories");
+            }
             if shard - nb < 3 {
                 // one bus object living through 100 000 messages
                 history_of_length(&mut rng, 100_000, rep);
@@ -457,6 +482,7 @@ pub fn run(ctx: &Ctx) -> Outcome {
         floor("(addressed message kind x bystander state) cells observed (of 130)", cells >= 125, cells),
         floor("data delivered while >= 2 signs were receiving", report.get("data_while_two_signs_receiving") > 0, report.get("data_while_two_signs_receiving")),
         floor("absent-address messages of all 10 kinds", report.set_len("absent_address_kinds") == 10, report.set_len("absent_address_kinds")),
+        floor("a bus with a sign at every address 2..=140", report.get("big_bus_histories") == 1, report.get("big_bus_histories")),
         floor("neighbour traffic of 254..65540 chunks past an idle sign, then that sign's own transfer", report.get("neighbour_traffic_histories") == 22, report.get("neighbour_traffic_histories")),
         floor("three histories of 100 000 messages on one bus", report.get("long_histories") == 3, report.get("long_histories")),
         floor("populations of 1..4 signs", report.set_len("population_sizes") == 4, report.set_len("population_sizes")),
